@@ -12,6 +12,7 @@ const (
 	verifOK      = 0
 	verifMissing = 1
 	verifIsDir   = 2
+	verifLink    = 3 // a relative symbolic link to the file, which lives in a subdirectory "store" next to it
 )
 
 func verifPut(path string, state int, content string) bool {
@@ -20,6 +21,14 @@ func verifPut(path string, state int, content string) bool {
 		return os.WriteFile(path, []byte(content), 0644) == nil
 	case verifIsDir:
 		return os.MkdirAll(path, 0755) == nil
+	case verifLink:
+		i := len(path) - 1
+		for i > 0 && path[i] != '/' {
+			i--
+		}
+		dir, base := path[:i], path[i+1:]
+		return os.MkdirAll(dir+"/store", 0755) == nil && os.WriteFile(dir+"/store/"+base, []byte(content), 0644) == nil &&
+			os.Symlink("store/"+base, path) == nil
 	}
 	return true
 }
@@ -102,7 +111,7 @@ func VerifC20Op(op, kind, k int, s0, s1, s2 int, ctl int, block int, stale int) 
 	}
 	clean := ctl == verifOK && block == 0
 	for _, s := range states {
-		if s != verifOK {
+		if s != verifOK && s != verifLink {
 			clean = false
 		}
 	}
